@@ -13,7 +13,8 @@
  *   encstr <hex>             lshpack_enc_enc_str     -> hex
  *   conn <cap> <op>...       decoder history of one connection (lshpack_dec_decode loops
  *                            as in h2_parse_headers_frame / h2_discard_headers_frame):
- *                            B<hex> served block, D<hex> discarded block, S<n> set_max_capacity
+ *                            B<hex> served block, D<hex> discarded block ("d" | "d!<rc> dead"),
+ *                            S<n> set_max_capacity
  *   connv / connx            same, plus nghttp2's inflater on the same blocks: trailing "x=ok" |
  *                            "x=BAD@<op>" (connv: both must accept and agree; connx: if both
  *                            accept they must agree)
@@ -222,7 +223,11 @@ static void op_conn(int mode) {
             if (mode) fl_add(&lsf, lsx.buf + lsx.name_offset, lsx.name_len, lsx.buf + lsx.val_offset, lsx.val_len);
         }
         fclose(ms);
-        if (op[0] == 'D') fputs("d ", stdout);
+        if (op[0] == 'D') {
+            /* a decoding error in a discarded block is a connection error as well */
+            if (rc == LSHPACK_OK) fputs("d ", stdout);
+            else { printf("d!%d dead ", rc); dead = 1; }
+        }
         else if (rc == LSHPACK_OK) printf("ok:%s ", nf ? mem : "-");
         else { printf("e%d:%s dead ", rc, nf ? mem : "-"); dead = 1; }
         free(mem);
@@ -809,7 +814,9 @@ static void op_req(void) {
     }
     SEP();
     dump_table(&h2c->decoder);
-    printf(" cid=%u nd=%u nr=%u\n", h2c->h2_cid, (unsigned)h2c->n_discarded_headers, (unsigned)h2c->n_refused_stream);
+    if (h2c->sent_goaway > 0) fputs(" cid=-", stdout);      /* (last-stream-id of a dead connection: not compared) */
+    else printf(" cid=%u", h2c->h2_cid);
+    printf(" nd=%u nr=%u\n", (unsigned)h2c->n_discarded_headers, (unsigned)h2c->n_refused_stream);
     con_end();
 }
 
